@@ -12,7 +12,7 @@ ITOA = [dict(rule='R5', lit='itoa::Buffer::new()', to='ItoaBuffer::new()', note=
         dict(rule='R5', lit='buf.format(*value).as_bytes()', to='buf.format(*value).as_slice()', note='itoa shim returns Vec<u8>')]
 UNIT = dict(
     properties=['C01', 'C03', 'C14', 'C19'],   # default tags; per-function `props` below override
-    prelude=['io.rs', 'pdfobj.rs', 'containers.rs'],
+    prelude=['io.rs', 'pdfobj.rs', 'absobj.rs', 'containers.rs'],
     spec=['spec.rs', 'xrefspec.rs', 'docspec.rs'],
     types=[
         dict(file='src/object.rs', kind='type', name='ObjectId'),
